@@ -20,6 +20,13 @@ def check(run):
     hs = [h for h in hs if any(o["op"] == "pub" for o in h)]
     if not thorough:
         hs = hs[:: max(1, len(hs) // 280)]
+    # QoS 2 handshakes in depth: one message with two destinations, one identifier; PUBLISH, PUBREL (first, repeated, after a failed
+    # distribution, after a time-out), failures of either destination toggled in between
+    h2 = inboundlib.gen(run, "q2", [1, 2], ["c1"], ["m1"], [1], 6 if thorough else 5, qos=(2,))
+    h2 = [h for h in h2 if h[0]["op"] in ("pub", "toggle") and sum(1 for o in h if o["op"] == "pubrel") >= 2
+          and any(o["op"] == "toggle" for o in h) and any(o["op"] == "pub" for o in h)]
+    run.log("%d QoS 2 handshake scripts with a repeated PUBREL and an injected failure" % len(h2))
+    hs += h2
     scns = [inboundlib.scenario(h, [1, 2]) for h in hs]
     run.log("%d publisher scripts from TLC" % len(scns))
     tpath, crashes = brokerlib.execute(run, scns, "c05", shards=12)
@@ -34,8 +41,9 @@ def check(run):
         "evaluations": len(scns),
         "distinct_nontrivial": faulty,
         "rule": "scenario = TLC-generated publisher script (exhaustive depth %d over PUBLISH q0/q1/q2 x ids {1,2} x 2 messages, PUBREL, handshake "
-                "time-out, toggling failure of node 1's / node 2's log append or of the RPC towards them; simulated depth 7 with 4 messages), "
-                "on two real nodes with one subscriber each; non-trivial = contains an injected failure" % (4 if thorough else 3),
+                "time-out, toggling failure of node 1's / node 2's log append or of the RPC towards them; simulated depth 7 with 4 messages; plus every QoS 2 "
+                "script of depth %d on one two-destination message with >= 2 PUBRELs and >= 1 injected failure), "
+                "on two real nodes with one subscriber each; non-trivial = contains an injected failure" % (4 if thorough else 3, 6 if thorough else 5),
         "events_validated": nev, "trace_spec_states": tstates, "rejections": len(rejected),
         "samples": [hs[0], hs[len(hs) // 2], {"scenario": scns[-1]}],
     }, ["a repeated QoS 2 PUBLISH on an open handshake may end the session or re-send PUBREC; an unknown PUBREL may be ignored; neither may forward",
